@@ -186,7 +186,8 @@ def step (st : DSt) (ts : List String) : DSt × String :=
         let m := (List.range n).foldl (fun m _ => m * (hi - lo)) (1.0 : Float)
         let pi : Float := Num.pi
         let um : Float := if kind == "se2" then 2.0 * pi else pi * pi
-        let tot := 1.0 * m * um
+        -- CompoundStateSpace::getMeasure: m *= weights_[i] * components_[i]->getMeasure() (SE2 weights 1, 0.5; SE3 1, 1)
+        let tot := (1.0 * (1.0 * m)) * ((if kind == "se2" then 0.5 else 1.0) * um)
         ({ st with kind := kind, n := n, lo := lo, hi := hi, infMeas := m, totMeas := tot, unMeas := some um,
                    starts := [], goals := [], smp := none, skind := "", q := [] },
           s!"space ok ~inf={floatBits m} ~tot={floatBits tot}")
